@@ -186,11 +186,17 @@ def in_domain(ref, metric):
 
 def evaluate_oracle(rp):
     from pb_bss.permutation_alignment import OraclePermutationAlignment, apply_mapping
-    ref, field = pc.ro(rp['ref']), np.asarray(rp['field'])
+    ref = pc.ro(rp['ref'])
     metric, algo = rp['metric'], rp['algo']
     K, F, T = ref.shape
     tag = '%s:%s' % (metric, algo)
-    mask = pc.ro(np.stack([ref[field[:, f], f] for f in range(F)], axis=1))     # mask[k, f] = ref[field[k, f], f]
+    if rp.get('free_mask') is not None:
+        # estimate unrelated to the reference: only the score matrices / assignment are observed
+        mask = pc.ro(rp['free_mask'])
+        field = None
+    else:
+        field = np.asarray(rp['field'])
+        mask = pc.ro(np.stack([ref[field[:, f], f] for f in range(F)], axis=1))     # mask[k, f] = ref[field[k, f], f]
     b1, b2 = mask.tobytes(), ref.tobytes()
     try:
         al = OraclePermutationAlignment(metric, algo)
@@ -203,12 +209,20 @@ def evaluate_oracle(rp):
     coq = None
     if np.asarray(mapping).shape == (K, F) and K <= 5:
         m, g = pc.MET[metric], core.cbool(algo == 'greedy')
-        coq = 'andR (check_oracle %d %s %d %d %s %s %s) (check_oracle_restores %d %s %d %d %s %s)' % (
-            m, g, K, T, pc.bins(mask), pc.bins(ref), pc.mapping_fk(np.clip(mapping, 0, 99)),
-            m, g, K, T, pc.bins(mask), pc.bins(ref))
+        coq = 'check_oracle %d %s %d %d %s %s %s' % (
+            m, g, K, T, pc.bins(mask), pc.bins(ref), pc.mapping_fk(np.clip(mapping, 0, 99)))
+        if field is not None:
+            coq = 'andR (%s) (check_oracle_restores %d %s %d %d %s %s)' % (coq, m, g, K, T, pc.bins(mask), pc.bins(ref))
     r = pc.check_alignment_result(mask, mapping, aligned, K)
     if r is not None:
         return '%s (%s)' % (r[0], tag), 'oracle:%s:%s' % (r[1], tag), coq
+    if field is None:
+        expect = pc.ref_oracle(mask, ref, metric, algo)
+        if not np.array_equal(np.asarray(mapping), expect):
+            f = int(np.argmax((np.asarray(mapping) != expect).any(axis=0)))
+            return ('oracle(%s): mapping of bin %d is %s, the assignment of the documented score matrix is %s'
+                    % (tag, f, np.asarray(mapping)[:, f].tolist(), expect[:, f].tolist())), 'oracle:assignment:' + tag, coq
+        return None, None, coq
     if not np.array_equal(aligned, ref):
         f = int(np.argmax((aligned != ref).any(axis=(0, 2))))
         return ('oracle(%s) does not return the reference: bin %d, injected order %s, mapping %s'
@@ -247,6 +261,19 @@ def oracle_case(rng, tier, i, K=None, F=None, field=None, kind=None, metric=None
     return Case(name, coq=coq, pred_fail=fail, key=key, nontrivial=nontrivial,
                 digest_=core.digest(ref, np.asarray(field), metric, algo), sample={'name': name, 'field': core.small(np.asarray(field), 6)},
                 replay=rp, kind='oracle/' + kd)
+
+
+def oracle_free_case(rng, tier, i):
+    metric = pc.METRICS[int(rng.integers(0, 3))]
+    algo = 'greedy' if rng.random() < 0.5 else 'optimal'
+    K, F, T = int(rng.integers(2, 6)), pc.odd_F(rng, 1, 9), int(rng.integers(2, 10))
+    ref = pc.gen_mask(rng, K, F, T, 'cont') * (0.2 + 3.0 * rng.random((K, 1, 1)))
+    mask = pc.gen_mask(rng, K, F, T, 'cont') * (0.2 + 3.0 * rng.random((K, 1, 1)))
+    rp = {'fn': 'oracle', 'ref': ref, 'free_mask': mask, 'metric': metric, 'algo': algo}
+    fail, key, coq = evaluate_oracle(rp)
+    name = 'oracle-free K=%d F=%d T=%d %s %s' % (K, F, T, metric, algo)
+    return Case(name, coq=coq, pred_fail=fail, key=key, nontrivial=True, digest_=core.digest(ref, mask, metric, algo),
+                sample={'name': name}, replay=rp, kind='oracle-free')
 
 
 def exhaustive_field_cases(rng, tier):
@@ -335,6 +362,8 @@ def cases(rng, tier):
         c = oracle_case(rng, tier, i)
         if c is not None:
             out.append(c)
+    for i in range(15 if q else 150):
+        out.append(oracle_free_case(rng, tier, i))
     for i in range(12 if q else 120):
         c = global_case(rng, tier, i)
         if c is not None:
@@ -346,9 +375,9 @@ def search(rng, tier, hints):
     for c in optimal_grid_cases('thorough'):
         if c.pred_fail:
             return [c]
-    gens = [oracle_case, optimal_case, global_case]
+    gens = [oracle_case, optimal_case, global_case, oracle_free_case]
     for i in range(600 if tier == 'quick' else 4000):
-        c = gens[i % 3](rng, 'thorough', i)
+        c = gens[i % 4](rng, 'thorough', i)
         if c is not None and c.pred_fail:
             return [c]
     return []
